@@ -1,4 +1,6 @@
 """C37 -- Block-quantized matrix multiplication equals dequantize-then-multiply (DESIGN.md section 2, C37)."""
+import os
+
 import vf
 
 META = {
@@ -40,10 +42,15 @@ def main(ctx):
     ctx.audit(GROUP)
     failed = ctx.prove(GROUP, "Props_C37", THEOREMS)
     bindir = ctx.harness(GROUP, profile="release", bins=["c37"])
-    cases = ctx.gen_exec(bindir, "c37", ctx.n(30, 200), inputs=ctx.replay_inputs())
+    cases = ctx.gen_exec(bindir, "c37", int(os.environ.get('VERIF_N', ctx.n(30, 200))), inputs=ctx.replay_inputs())
     shard = max(4, -(-len(cases) // vf.NCPU))
     ctx.correspond("block-quantized-matmul-vs-dequant-gemm", GROUP, REQ, cases, show="show", agree="always",
                    prop_ok="prop_ok", shard=shard, fn_name="Gemm.BlockQuant.dequant + gemm_spec vs BlockQuantizedGemm / GemmExecutor")
+    if os.environ.get('VERIF_FAST') == '1':
+        if failed and not ctx.violations:
+            ctx.proof_broken(failed, 'all correspondence cases of this run')
+        return
+    # Informational: today's code (scale indexing, packer) evaluated as a model.
     dis, _, err = ctx.coq_eval_cases(GROUP, REQ, [c["term"] for c in cases if "int8mode" not in c["tag"]], "agree", "always", shard, tag="det")
     ctx.extra["code_model_disagreements"] = (len(dis) if not err else "evaluation error: " + str(err)[:200])
     ctx.extra["int8_compute_mode_cases_exercised"] = sum(1 for c in cases if "int8mode" in c["tag"])
